@@ -23,6 +23,7 @@ type runSem struct {
 	violations []string
 	// watcher goroutine (C13)
 	hasWatcher bool
+	goStarted  bool     // a goroutine is started with a go statement (it must be ended on every return)
 	watch      []string // violations of the hand-off protocol
 	leak       []string // violations of 'no goroutine left behind'
 	race       []string // unsynchronised accesses
@@ -39,11 +40,35 @@ const (
 )
 
 func analyseRunSem(cx *Ctx) *runSem {
-	rs := &runSem{returns: map[string]int{}}
+	// pass 1 finds the CPU locations the loop body changes; pass 2 generalises
+	// them at the loop header, so that the one interpreted iteration stands
+	// for every iteration (needed when the loop condition itself reads the
+	// CPU, as in `for !cpu.HALT { ... }`)
+	rs, changed := runSemPass(cx, nil)
+	if rs.err != nil || len(changed) == 0 {
+		return rs
+	}
+	rs2, _ := runSemPass(cx, changed)
+	return rs2
+}
+
+func runSemPass(cx *Ctx, carried []absint.CarriedLoc) (*runSem, []absint.CarriedLoc) {
+	rs, changed := runSemPass1(cx, carried)
+	return rs, changed
+}
+
+func runSemPass1(cx *Ctx, carried []absint.CarriedLoc) (rs *runSem, changed []absint.CarriedLoc) {
+	rs = &runSem{returns: map[string]int{}}
+	defer func() {
+		if x := recover(); x != nil {
+			rs = &runSem{err: fmt.Errorf("analyzer panic in the Run summary: %v", x), returns: map[string]int{}}
+			changed = nil
+		}
+	}()
 	run := cx.P.Method(load.ModulePath, "CPU", "Run")
 	if run == nil || run.Blocks == nil {
 		rs.err = fmt.Errorf("UNRESOLVED anchor: (*CPU).Run")
-		return rs
+		return rs, nil
 	}
 	c := dom.NewCtx()
 	tr := dom.NewTrace(c)
@@ -53,14 +78,17 @@ func analyseRunSem(cx *Ctx) *runSem {
 	cx.E.Preconditions(in)
 	in.LoopBodies = true
 	in.NoGlobalEvents = true
+	if carried != nil {
+		in.LoopCarried = map[int][]absint.CarriedLoc{1: carried}
+	}
 	// identity of the breakpoint error
 	if g := cx.P.SSAPkg(load.ModulePath).Var("ErrBreakPoint"); g != nil {
 		in.InitOverride["global:"+g.RelString(nil)+"|"] = &absint.Iface{Sym: "ErrBreakPoint", Nil: bdd.False}
 	} else {
 		rs.err = fmt.Errorf("UNRESOLVED anchor: ErrBreakPoint")
-		return rs
+		return rs, nil
 	}
-	shared := map[string]string{} // alloc root -> name, cells captured by a goroutine
+	shared := map[string]string{}    // alloc root -> name, cells captured by a goroutine
 	published := map[string]bool{}   // cells the goroutine stores atomically
 	plainStored := map[string]bool{} // cells the goroutine stores plainly
 	atomLoaded := map[string]bool{}  // cells Run loads atomically
@@ -98,7 +126,8 @@ func analyseRunSem(cx *Ctx) *runSem {
 		// the Step must start from the state the previous Step (or the caller) left
 		for i, p := range paths {
 			v := in.Load(st, &absint.Ptr{Root: "cpu", Path: p, Nil: bdd.False}, cx.E.LeafByPath(p).Type, 0).(dom.BV)
-			if !v.Equal(c.Atom("Init("+p+")", widths[i])) && !(p == "HALT" && v.Equal(c.Const(1, 0))) {
+			if !v.Equal(c.Atom("Init("+p+")", widths[i])) && !(p == "HALT" && v.Equal(c.Const(1, 0))) &&
+				!(carried != nil && v.Equal(c.Atom("loop1.mem(cpu|"+p+")", widths[i]))) {
 				rs.violations = append(rs.violations, pos+": CPU."+p+" is modified by Run itself before Step")
 			}
 		}
@@ -109,11 +138,20 @@ func analyseRunSem(cx *Ctx) *runSem {
 		}
 		return nil, st, true
 	}
+	// analyseWatcher interprets the function a goroutine runs.  registeredOn is
+	// "" for a go statement, or the context the function was registered on with
+	// context.AfterFunc (it then starts only once that context is done: no
+	// goroutine exists while waiting, so nothing is left behind).
+	var analyseWatcher func(in *absint.Interp, fv *absint.FuncV, args []absint.Value, guard bdd.Node, st *absint.State, pos, registeredOn string)
 	in.OnGo = func(in *absint.Interp, fv *absint.FuncV, args []absint.Value, guard bdd.Node, st *absint.State, pos string) {
 		tr.Emit(guard, "go", "", nil, 0, pos)
+		rs.goStarted = true
 		if fv == nil {
 			return
 		}
+		analyseWatcher(in, fv, args, guard, st, pos, "")
+	}
+	analyseWatcher = func(in *absint.Interp, fv *absint.FuncV, args []absint.Value, guard bdd.Node, st *absint.State, pos, registeredOn string) {
 		rs.hasWatcher = true
 		for _, b := range append(append([]absint.Value{}, fv.Bindings...), args...) {
 			if p, ok := b.(*absint.Ptr); ok && strings.HasPrefix(p.Root, "alloc#") {
@@ -140,6 +178,9 @@ func analyseRunSem(cx *Ctx) *runSem {
 		in.T = saved
 
 		var sawRecv, sawPub bool
+		if registeredOn != "" {
+			sawRecv = true
+		}
 		for i := range wt.Events {
 			e := &wt.Events[i]
 			switch e.Kind {
@@ -195,6 +236,7 @@ func analyseRunSem(cx *Ctx) *runSem {
 			rs.watch = append(rs.watch, pos+": the goroutine never publishes the cancellation with an atomic store")
 		}
 	}
+	in.OnPoll = func(dev string) bdd.Node { return c.Atom(fresh("ctx.Done-ready"), 1)[0] }
 	in.SharedRoots = map[string]bool{}
 	in.WatchStores = map[string]bool{}
 	in.SharedLoad = func(root, path string, w int) absint.Value {
@@ -245,13 +287,23 @@ func analyseRunSem(cx *Ctx) *runSem {
 		return nil, true
 	}
 	in.Models = map[string]absint.ModelFunc{
+		"context.AfterFunc": func(in *absint.Interp, args []absint.Value, guard bdd.Node, st *absint.State, pos string) (absint.Value, bool) {
+			iv, ok := args[0].(*absint.Iface)
+			fv, ok2 := args[1].(*absint.FuncV)
+			if !ok || !ok2 || iv.Sym == "" {
+				return nil, false
+			}
+			tr.Emit(guard, "afterfunc", iv.Sym, nil, 0, pos)
+			analyseWatcher(in, fv, nil, guard, st, pos, iv.Sym)
+			return &absint.Opaque{Why: "afterfunc-stop"}, true
+		},
 		"context.WithCancel": func(in *absint.Interp, args []absint.Value, guard bdd.Node, st *absint.State, pos string) (absint.Value, bool) {
 			return &absint.Tuple{Elems: []absint.Value{&absint.Iface{Sym: "ctx.derived", Nil: bdd.False}, &absint.Opaque{Why: "cancel"}}}, true
 		},
 		"sync/atomic.LoadInt32": atomicLoad(32), "sync/atomic.LoadUint32": atomicLoad(32), "sync/atomic.LoadInt64": atomicLoad(64),
 		"(*sync/atomic.Bool).Load":  atomicLoad(1),
 		"(*sync/atomic.Int32).Load": atomicLoad(32),
-		"sync/atomic.StoreInt32": atomicStore, "sync/atomic.StoreUint32": atomicStore, "sync/atomic.StoreInt64": atomicStore,
+		"sync/atomic.StoreInt32":    atomicStore, "sync/atomic.StoreUint32": atomicStore, "sync/atomic.StoreInt64": atomicStore,
 		"(*sync/atomic.Bool).Store": atomicStore, "(*sync/atomic.Int32).Store": atomicStore,
 		"(*sync/atomic.Pointer).Store": atomicStore,
 		"(*sync/atomic.Pointer).Load": func(in *absint.Interp, args []absint.Value, guard bdd.Node, st *absint.State, pos string) (absint.Value, bool) {
@@ -283,12 +335,12 @@ func analyseRunSem(cx *Ctx) *runSem {
 	_, _, err := in.Run(run, args, st)
 	if err != nil {
 		rs.err = err
-		return rs
+		return rs, nil
 	}
 	rs.steps = stepN
 	if len(in.Loops) != 1 {
 		rs.err = fmt.Errorf("UNDECIDED: Run has %d loops, the summary handles exactly one", len(in.Loops))
-		return rs
+		return rs, nil
 	}
 	ls := in.Loops[0]
 	M := c.M
@@ -340,7 +392,14 @@ func analyseRunSem(cx *Ctx) *runSem {
 		case "map.get":
 			if e.Dev == "BreakPoints" {
 				want := c.Atom(fmt.Sprintf("PostStep%d(PC)", stepN), 16)
-				if !e.Args[0].Equal(want) {
+				viaHeader := false
+				if carried != nil && e.Args[0].Equal(c.Atom("loop1.mem(cpu|PC)", 16)) {
+					// looked up at the loop header: PC as the previous Step left it
+					if bv, ok := ls.CarriedBack["cpu|PC"].(dom.BV); ok && bv.Equal(want) {
+						viaHeader = true
+					}
+				}
+				if !e.Args[0].Equal(want) && !viaHeader {
 					rs.violations = append(rs.violations, e.Pos+": the breakpoint set is looked up with a key other than PC as left by the Step of this iteration ("+c.Describe(e.Args[0])+")")
 				}
 				bpPresent = M.And(M.Not(c.Atom("IsNil(BreakPoints)", 1)[0]), e.Res[len(e.Res)-1])
@@ -351,22 +410,48 @@ func analyseRunSem(cx *Ctx) *runSem {
 	}
 	if nStepEvents != 1 {
 		rs.violations = append(rs.violations, fmt.Sprintf("one iteration of Run's loop calls Step at %d places (exactly one expected)", nStepEvents))
-		return rs
+		return rs, nil
 	}
 	halt := c.Atom(fmt.Sprintf("PostStep%d(HALT)", stepN), 1)[0]
 	entry := ls.EntryPred
-	cancel := M.And(entry, M.Not(gStep)) // the iteration does not Step
 	say := func(cond bdd.Node, msg string) {
 		if cond != bdd.False {
 			w, _ := c.Witness(cond)
 			rs.violations = append(rs.violations, msg+" - e.g. when {"+strings.Join(c.DescribeAssignment(w), " ")+"}")
 		}
 	}
-	// 1. not Stepping means returning the context's error, and vice versa
-	say(M.Xor(cancel, M.And(entry, pCtx)), "an iteration that does not Step must return the context's error, and the context's error may only be returned before the Step of an iteration")
+	// the loop-carried CPU locations: value entering the loop / value after an iteration
+	replInit, replBack := map[string]dom.BV{}, map[string]dom.BV{}
+	for _, k := range ls.Carried {
+		name := "loop1.mem(" + k + ")"
+		if bv, ok := ls.CarriedInit[k].(dom.BV); ok {
+			replInit[name] = bv
+		}
+		if bv, ok := ls.CarriedBack[k].(dom.BV); ok {
+			replBack[name] = bv
+		}
+		_, path := absint.SplitKey(k)
+		for i, p := range paths {
+			if p != path {
+				continue
+			}
+			if bv, ok := ls.CarriedBack[k].(dom.BV); !ok || !bv.Equal(c.Atom(fmt.Sprintf("PostStep%d(%s)", stepN, p), widths[i])) {
+				rs.violations = append(rs.violations, "Run's loop changes CPU."+p+" after Step")
+			}
+		}
+	}
+	atFirst := func(f bdd.Node) bdd.Node { return c.Subst(f, replInit) } // at the first header
+	atNext := func(f bdd.Node) bdd.Node { return c.Subst(f, replBack) }  // at the header after an iteration
+	// returns before / after the Step of the iteration
+	pre := func(f bdd.Node) bdd.Node { return M.And(M.And(entry, f), M.Not(gStep)) }
+	post := func(f bdd.Node) bdd.Node { return M.And(M.And(entry, f), gStep) }
+	cancel := pre(pCtx)                                     // the iteration does not Step because it saw the cancellation
+	preExit := M.Or(pre(pNil), M.Or(pre(pBP), pre(pOther))) // any other return before the Step
+	say(M.And(ls.BackPred, M.Not(gStep)), "an iteration can go round without calling Step")
+	say(post(pCtx), "the context's error is returned after the Step of an iteration (only a test before the Step may return it)")
+	say(atFirst(preExit), "Run can return before its first Step for a reason other than cancellation (a stale halted indication, a breakpoint on the start address): zero Steps")
 	// every iteration consults a fresh observation of the cancellation state,
-	// and the decision not to Step depends on nothing else (not on the CPU, not
-	// on a counter)
+	// and the decision depends on nothing else (not on the CPU, not on a counter)
 	if cancel == bdd.False {
 		rs.violations = append(rs.violations, "no iteration of the loop can observe cancellation (the test is not inside the loop): a tight program loop never returns after the context is cancelled")
 	}
@@ -375,14 +460,17 @@ func analyseRunSem(cx *Ctx) *runSem {
 		entryAtoms[a] = true
 	}
 	freshObs := false
+	notCancel := M.And(M.And(entry, M.Not(cancel)), M.Not(preExit)) // = the iteration Steps
 	for _, a := range c.AtomsIn(cancel) {
 		obs := false
-		for _, pre := range []string{"atomic.Load@", "shared(", "ctx.Err@", "atomic.Pointer@", "IsNil(ctx.Err@", "IsNil(shared(", "IsNil(atomic.Pointer@"} {
+		for _, pre := range []string{"atomic.Load@", "shared(", "ctx.Err@", "atomic.Pointer@", "ctx.Done-ready@", "IsNil(ctx.Err@", "IsNil(shared(", "IsNil(atomic.Pointer@"} {
 			if strings.HasPrefix(a, pre) {
 				obs = true
 			}
 		}
 		switch {
+		case strings.HasPrefix(a, "loop1.mem("):
+			// the order of a header test and the cancellation test: judged below on the composed decisions
 		case strings.HasPrefix(a, "PostStep") || strings.HasPrefix(a, "Init("):
 			rs.violations = append(rs.violations, "whether an iteration Steps depends on CPU state ("+a+"): zero Steps or a skipped Step become possible")
 		case !obs:
@@ -394,11 +482,18 @@ func analyseRunSem(cx *Ctx) *runSem {
 	if cancel != bdd.False && !freshObs {
 		rs.violations = append(rs.violations, "the cancellation state is not re-read inside the loop")
 	}
-	// 2. after the Step: breakpoint first, then HALT, else next iteration
-	say(M.Xor(M.And(entry, pBP), M.And(gStep, bpPresent)), "ErrBreakPoint must be returned exactly when the Step of this iteration left PC in BreakPoints")
-	say(M.Xor(M.And(entry, pNil), M.And(gStep, M.And(M.Not(bpPresent), halt))), "nil must be returned exactly when the Step of this iteration executed HALT and PC is not a breakpoint")
-	say(M.Xor(ls.BackPred, M.And(gStep, M.And(M.Not(bpPresent), M.Not(halt)))), "the loop must continue exactly when the Step hit no breakpoint and executed no HALT")
-	say(M.And(entry, pOther), "Run returns something other than nil, ErrBreakPoint or the context's error")
+	// whenever the iteration neither returns early nor is cancelled, it Steps
+	say(M.Xor(gStep, notCancel), "an iteration that is not cancelled must Step")
+	// 2. after the Step - including the tests the next loop header makes before
+	// anything else: breakpoint first, then HALT, else the next iteration
+	bpEff := M.Or(post(pBP), M.And(ls.BackPred, atNext(pre(pBP))))
+	nilEff := M.Or(post(pNil), M.And(ls.BackPred, atNext(pre(pNil))))
+	othEff := M.Or(post(pOther), M.And(ls.BackPred, atNext(pre(pOther))))
+	contEff := M.And(ls.BackPred, M.Not(atNext(preExit)))
+	say(M.Xor(bpEff, M.And(gStep, bpPresent)), "ErrBreakPoint must be returned exactly when the Step of this iteration left PC in BreakPoints")
+	say(M.Xor(nilEff, M.And(gStep, M.And(M.Not(bpPresent), halt))), "nil must be returned exactly when the Step of this iteration executed HALT and PC is not a breakpoint")
+	say(M.Xor(contEff, M.And(gStep, M.And(M.Not(bpPresent), M.Not(halt)))), "the loop must continue exactly when the Step hit no breakpoint and executed no HALT")
+	say(othEff, "Run returns something other than nil, ErrBreakPoint or the context's error")
 	// hand-off, run side
 	if rs.hasWatcher {
 		for cell := range published {
@@ -438,9 +533,20 @@ func analyseRunSem(cx *Ctx) *runSem {
 			}
 		}
 		for _, rt := range in.TopReturns {
+			if !rs.goStarted {
+				break // registered with context.AfterFunc only: no goroutine exists while waiting
+			}
 			if M.And(rt.Pred, M.Not(covered)) != bdd.False {
 				rs.leak = append(rs.leak, "Run can return without cancelling the context its goroutine waits on (the derived context's CancelFunc is not run on every return): the goroutine is left behind")
 				break
+			}
+		}
+	}
+	if carried == nil {
+		for _, k := range ls.StoreChanged {
+			root, path := absint.SplitKey(k)
+			if l := cx.E.LeafByPath(path); root == "cpu" && l != nil && l.Width > 0 {
+				changed = append(changed, absint.CarriedLoc{Key: k, Type: l.Type})
 			}
 		}
 	}
@@ -485,7 +591,7 @@ func analyseRunSem(cx *Ctx) *runSem {
 			rs.violations = append(rs.violations, "Run changes CPU."+path+" before its first Step")
 		}
 	}
-	return rs
+	return rs, changed
 }
 
 func boolInt(b bool) int {
